@@ -7,6 +7,10 @@ OVERLAYS = [
     ("src/curve25519/fe/mod.rs", "verif_fe", "fe.rs", None, "crate::curve25519::fe"),
     ("src/curve25519/scalar/mod.rs", "verif_scalar", "scalar.rs", None, "crate::curve25519::scalar"),
 ]
+# harness modules below a private module are re-exported from the nearest crate-visible ancestor for the native replay dispatcher
+EXPORTS = {
+    "crate::curve25519::fe::verif_fe": ("src/curve25519/mod.rs", "self::fe::verif_fe", "verif_fe_x", None, "crate::curve25519"),
+}
 _MS = ["mirsym: input limbs range over the stated classes (fe64: every limb <= 2^53-76 'LOOSE'; outputs proven <= 2^51-1+2^16 'TIGHT', which is inside LOOSE, so the "
        "classes are closed under composition)"]
 PROPS = {
@@ -27,3 +31,20 @@ PROPS = {
         extra=[mirsym_extra.make_extra("C15")],
     ),
 }
+
+PROPS["C17"] = dict(
+    prefixes=["c15_fe_", "c14_scalar_canonical", "c15_scalar_"],
+    feature_sets=[["force-32bits"]],
+    level="model_checking",
+    bounds="obligation 0: the crate builds with --features force-32bits. Then equivalence THROUGH THE COMMON SPECIFICATION: the backend-independent bit-level harnesses of C15/C14 "
+           "(decode/encode canonical, ==, sign, zero test, canonical scalar decoder, scalar bytes/bits/nibbles: all byte strings) are decided by CBMC on the 32-bit backend, and the fe32 limb "
+           "functions are decided by mirsym against the SAME mathematical specifications as fe64 (all limbs within the ref10 bounds)",
+    outside="scalar32 reduce/muladd (ref10 sc_reduce/sc_muladd) unless listed in this run's evidence; group level code is backend-independent source",
+    assumptions=["mirsym fe32: input limbs within the ref10 preconditions (|even limb| <= 1.1*2^26, |odd limb| <= 1.1*2^25 for mul/square operands)"],
+    trusted=[],
+    explanation="both backends are compared with one specification, so their canonical outputs and accept/reject decisions coincide",
+    level_text="force-32bits builds; every bit-level obligation of the field and scalar API holds on the 32-bit backend for all inputs (CBMC); fe32 limb arithmetic meets the same "
+               "value specifications as fe64 (mirsym/z3). Equal canonical outputs on both backends follow because both equal the specification.",
+    level_note="No workload is run through both backends and compared (that would be sampling); equivalence is via the shared specification.",
+    extra=[mirsym_extra.make_compile_check("C17", ["force-32bits"]), mirsym_extra.make_extra("C17", cfgs=("fe32",))],
+)
